@@ -279,11 +279,76 @@ theorem guard_ne {J : JM ℝ} {e : JStop} {v : ℝ} (h : (J >>= fun f => if f = 
     · simp only [jbind_ok, hw, ↓reduceIte] at h; cases h
     · simp only [jbind_ok, hw, ↓reduceIte] at h; cases h; exact hw
 
+/-- a Java outcome that, when it is a value, is not 0 -/
+def JNz (j : JM ℝ) : Prop := ∀ v, j = Except.ok v → v ≠ 0
+theorem JNz.error {e : JStop} : JNz (Except.error e) := fun _ h => by cases h
+theorem JNz.of_ne {y : ℝ} (h : y ≠ 0) : JNz (Except.ok y) := fun _ h' => by cases h'; exact h
+theorem JNz.ne {j : JM ℝ} {v : ℝ} (h : JNz j) (hv : j = Except.ok v) : v ≠ 0 := h v hv
+theorem JPos.toNz {j : JM ℝ} (h : JPos j) : JNz j := fun v hv => (h v hv).ne'
+
+macro "jnz_auto" : tactic =>
+  `(tactic| (
+    (try jeq_simp)
+    repeat' (first
+      | with_reducible exact JNz.error
+      | ((with_reducible apply JNz.of_ne) <;> first | assumption | (intro h; linarith) | (intro h; apply_assumption; linarith) | (intro h; simp_all; done))
+      | omega
+      | (simp only [wrapI] at *; omega)
+      | (split_ifs <;> (try jeq_simp)))))
+
+/-- `Jump_catch` (value or 0) from the relation of the guarded jump function at the `NULL` slot: C's jump functions report a vanishing
+share as an error (and return 0), Java's return the 0 — with `NULL` and `catch` both callers see 0 -/
+theorem JCatchRel.of_guard {J : JM ℝ} {c : M (ℝ × Slot)} {m : String}
+    (h : JRelI (J >>= fun f => if f = 0 then Except.error (.iae m) else Except.ok f) c Slot.null) :
+    JCatchRel (jtry (do let r ← J; pure r) (pure (0.0 : ℝ))) c := by
+  have z : (0.0 : ℝ) = 0 := by norm_num
+  cases J with
+  | error x =>
+    simp only [jbind_error] at h
+    rcases h.cases with ⟨v, hc, hj⟩ | ⟨e, x', hc, hj⟩ | ⟨a, b, hc, hj⟩ | ⟨a, hc⟩
+    · cases hj
+    · cases hj; subst hc; exact ⟨rfl, by show Except.ok (0.0 : ℝ) = Except.ok 0; rw [z]⟩
+    · cases hj; subst hc; exact ⟨b, rfl⟩
+    · subst hc; trivial
+  | ok w =>
+    by_cases hw : w = 0
+    · subst hw
+      simp only [jbind_ok, ↓reduceIte] at h
+      rcases h.cases with ⟨v, hc, hj⟩ | ⟨e, x', hc, hj⟩ | ⟨a, b, hc, hj⟩ | ⟨a, hc⟩
+      · cases hj
+      · subst hc; exact ⟨rfl, rfl⟩
+      · cases hj
+      · subst hc; trivial
+    · simp only [jbind_ok, hw, ↓reduceIte] at h
+      rcases h.cases with ⟨v, hc, hj⟩ | ⟨e, x', hc, hj⟩ | ⟨a, b, hc, hj⟩ | ⟨a, hc⟩
+      · cases hj; subst hc; exact ⟨rfl, rfl⟩
+      · cases hj
+      · cases hj
+      · subst hc; trivial
+
+theorem JRelI.value_eq {x y : ℝ} {s : Slot} (h : x = y) : JRelI (.ok x) (.ok (y, s)) s := h ▸ JRelI.value
+
+/-- a Java computation that cannot end with a value (every path ends in a `throw`) -/
+def JNoVal {β : Type} (j : JM β) : Prop := ∀ v, j ≠ Except.ok v
+theorem JNoVal.error {β : Type} {e : JStop} : JNoVal (Except.error e : JM β) := fun _ h => by cases h
+theorem JNoVal.bind {β γ : Type} {m : JM β} {f : β → JM γ} (h : ∀ a, JNoVal (f a)) : JNoVal (m >>= f) := by
+  cases m with
+  | error e => exact JNoVal.error
+  | ok a => exact h a
+theorem JNoVal.ite {β : Type} {c : Prop} [Decidable c] {a b : JM β} (ha : JNoVal a) (hb : JNoVal b) : JNoVal (if c then a else b) := by
+  split_ifs <;> assumption
+macro "jnoval_struct" : tactic =>
+  `(tactic| repeat' (first
+      | with_reducible exact JNoVal.error
+      | (with_reducible apply JNoVal.bind; intro _)
+      | with_reducible apply JNoVal.ite))
+
 /-! ## automation for the intermediate relation `JRelI` -/
 macro "jeqi_leaf" : tactic =>
   `(tactic| first
     | with_reducible exact JRelI.value | with_reducible exact JRelI.fail | with_reducible exact JRelI.fail_e | with_reducible exact JRelI.ub
     | with_reducible exact JRelI.nf
+    | ((with_reducible apply JRelI.value_eq) <;> first | norm_num | (norm_num; ring) | (field_simp; ring) | (simp_all; done))
     | omega
     | (simp only [wrapI] at *; omega)
     | (exfalso; linarith)
@@ -302,6 +367,12 @@ macro "jeqi_use" h:term : tactic =>
 macro "jeqi_use_pos" h:term "," p:term : tactic =>
   `(tactic| (rcases (JRelI.cases $h) with ⟨v, hc, hj⟩ | ⟨e, m, hc, hj⟩ | ⟨a, b, hc, hj⟩ | ⟨a, hc⟩ <;>
       [(have hne := JPos.ne $p hj); (jeqi_auto; done); (jeqi_auto; done); (jeqi_auto; done)]))
+
+macro "jeqi_use_catch" h:term : tactic =>
+  `(tactic| (rcases (JCatchRel.cases $h) with ⟨v, hc, hj⟩ | ⟨a, b, hc, hj⟩ | ⟨a, hc⟩ <;> [skip; (jeqi_auto; done); (jeqi_auto; done)]))
+macro "jeqi_use_nz" h:term "," p:term : tactic =>
+  `(tactic| (rcases (JRelI.cases $h) with ⟨v, hc, hj⟩ | ⟨e, m, hc, hj⟩ | ⟨a, b, hc, hj⟩ | ⟨a, hc⟩ <;>
+      [(have hne := JNz.ne $p hj); (jeqi_auto; done); (jeqi_auto; done); (jeqi_auto; done)]))
 
 /-- `X_catch` from a `JRelI` fact at the `NULL` slot -/
 theorem JCatchRel.of_relI {j : JM ℝ} {c : M (ℝ × Slot)} (h : JRelI j c Slot.null) :
